@@ -145,7 +145,7 @@ def run_group(ctx, prop, lean=True, other_tiers=True):
         ctx.assume('ASSUMED LEMMAS (schemas instantiated in VCs without a Lean proof yet; validated by reading only): ' + ', '.join(_specs.ASSUMED_SCHEMAS))
     for (rel, qual) in sorted(used_assumed):
         c = contracts[(rel, qual)]
-        ctx.assume('assumed contract {}:{} - {}'.format(rel, qual, c.get('assumed') or c.get('trusted')))
+        ctx.assume('assumed contract {}:{} - {}'.format(rel, qual, c.get('assumed') or c.get('trusted') or c.get('value_form')))
     for (rel, qual), c in todo:
         if c.get('note'):
             ctx.assume('{}:{} - {}'.format(rel, qual, c['note']))
